@@ -32,6 +32,7 @@ class C12(scen.WorldProp):
                 "Wheatley.C12.fixed_point",
                 "Wheatley.C12.memory_bounded",
                 "Wheatley.C12.forgets_oldest",
+                "Wheatley.C12.centred_evaluation_is_the_same_fit",
                 "Wheatley.det_pos",
                 "Wheatley.regress_eq"]
     level_text = ("theorems (any ordered field): weighted least squares recovers a line exactly from any data set "
@@ -78,8 +79,13 @@ class C12(scen.WorldProp):
             change = None
             if mode == "change":
                 change = (rng.randint(5, 8), c * rng.choice([0.95, 0.97, 1.03, 1.05]))
+            kind = "regression"
             if mode == "inert_then_change":
                 change = (inert_rows + 2, c * rng.choice([0.96, 0.97, 1.03, 1.04]))
+                if change[1] < c and rng.random() < 0.6:
+                    # through the waiting wrapper, as on a Ringing Room server (the band gets faster, so that
+                    # nobody is ever late for Wheatley and no hold-up blurs the line)
+                    kind = "wait"
             events = [call(t0, LOOK_TO)] + steady_band(N, humans, a, c, gap, rows, change)
             if mode == "inert_then_change":
                 t_set = a + c * scen.blow_index(N, gap, inert_rows, 0) + 0.3 * c
@@ -91,7 +97,7 @@ class C12(scen.WorldProp):
                   "on_join": scen.humans_on_join(humans, "Wheatley", wb) if server else scen.humans_on_join(humans),
                   "bot": scen.bot_cfg({"type": "plainhunt", "stage": N, "start_row": None},
                                       user_name="Wheatley" if server else None, server_id=7 if server else None),
-                  "rhythm": scen.rhythm_cfg("regression", inertia=inertia, peal_speed=ps, gap=gap, max_bells=maxb)}
+                  "rhythm": scen.rhythm_cfg(kind, inertia=inertia, peal_speed=ps, gap=gap, max_bells=maxb)}
             yield {"k": "world", "scenario": sc, "mode": mode, "a": a, "c": c, "change": change, "humans": humans,
                    "inertia": inertia, "rows": rows, "N": N, "gap": gap, "t0": t0, "maxb": maxb}
 
@@ -143,7 +149,10 @@ class C12(scen.WorldProp):
             elif mode in ("change", "inert_then_change"):
                 ch = req["change"]
                 turnover = ch[0] + (req["maxb"] // nh) + 4
-                if r >= turnover + (6 if req["inertia"] > 0 else 0) and err > (1e-6 if req["inertia"] == 0 else 2e-3):
+                # (through the waiting wrapper a strike heard at the very instant it is due may or may not cost
+                # one 10 ms poll, so there the line is only followed to within a few polls)
+                tol = 0.03 if req["scenario"]["rhythm"]["kind"] == "wait" else (1e-6 if req["inertia"] == 0 else 2e-3)
+                if r >= turnover + (6 if req["inertia"] > 0 else 0) and err > tol:
                     return (f"tempo change at row {ch[0]} (inertia {req['inertia']}, memory {req['maxb']}): row {r} bell {b} "
                             f"is {err:.2e} s off the new line")
         return None
